@@ -145,7 +145,8 @@ class Prog:
             for k in sorted(frame_locals):
                 linemap[emit("log var.v%d;" % k, ind)] = ("snaplog", "var.v%d" % k, None)
             for n in self.pool():
-                linemap[emit("log %s;" % n, ind)] = ("snaplog", n, None)
+                if not n.startswith("@"):               # a ctx cell no variable of the language reads
+                    linemap[emit("log %s;" % n, ind)] = ("snaplog", n, None)
 
         def block(ss, ind, frame, visible):
             for s in ss:
